@@ -49,3 +49,13 @@ Theorem C15_cut_outer_keeps_wf2 `{Sig} : forall E n ks e nd1 nd2 nd3 c w cnt w' 
   run E (cut_outer_edge n ks e nd1 nd2 nd3) c w cnt = (Done tt, w', cnt') -> wf2 n w'.
 Proof. intros E n ks e nd1 nd2 nd3 c w cnt w' cnt'. exact (cut_outer_edge_wf E n w ks e nd1 nd2 nd3 c cnt w' cnt'). Qed.
 Print Assumptions C15_cut_outer_keeps_wf2.
+
+(** ... and the cut of an interior edge, when the edge's dart and its 2-image have predecessors, the six spare darts
+    are in use, the pairs that get 2-linked are distinct, and the spare darts differ from the darts of the edge. *)
+Theorem C15_cut_inner_keeps_wf2 `{Sig} : forall E n ks e nd1 nd2 nd3 nd4 nd5 nd6 rd c w cnt w' cnt',
+  wf2 n w -> okd n w e -> okd n w nd1 -> okd n w nd2 -> okd n w nd3 -> okd n w nd4 -> okd n w nd5 -> okd n w nd6 ->
+  nd1 <> nd2 -> nd4 <> nd5 -> beta w 2 e = rd -> beta w 0 e <> 0 -> beta w 0 rd <> 0 ->
+  ~ In e (nd1 :: nd2 :: nd3 :: nd4 :: nd5 :: nd6 :: nil) -> rd <> nd3 -> rd <> nd6 ->
+  run E (cut_inner_edge n ks e nd1 nd2 nd3 nd4 nd5 nd6) c w cnt = (Done tt, w', cnt') -> wf2 n w'.
+Proof. intros E n ks e nd1 nd2 nd3 nd4 nd5 nd6 rd c w cnt w' cnt'. exact (cut_inner_edge_wf E n w ks e nd1 nd2 nd3 nd4 nd5 nd6 rd c cnt w' cnt'). Qed.
+Print Assumptions C15_cut_inner_keeps_wf2.
